@@ -29,6 +29,20 @@ def lit_kind(per_loc):
     return kinds.pop() if len(kinds) == 1 else None
 
 
+def add_plural_keys(project, rng):
+    """One ordinal and one cardinal plural key with every form written (distinct text per form and locale), in every
+    locale: whatever category a count falls in, a wrong rule set or a wrong form shows as a different text."""
+    cfg = project["cfg"]
+    ns = (cfg.get("namespaces") or [None])[0]
+    for rule in ("ordinal", "cardinal"):
+        name = "zz_%s_forms" % rule
+        for (n, loc), tree in project["data"].items():
+            if n != ns:
+                continue
+            forms = {f: [{"s": "text", "v": "%s %s %s " % (loc, rule[:3], f)}, {"s": "var", "name": "count", "fmt": None}] for f in gen.FORMS}
+            tree.append([name, {"k": "plural", "rule": rule, "forms": forms}])
+
+
 def add_observations(crate, project, ptable, rng, max_keys=40):
     cfg = project["cfg"]
     locales = gen.effective_locales(cfg)
@@ -41,7 +55,8 @@ def add_observations(crate, project, ptable, rng, max_keys=40):
     rng.shuffle(keys)
     # deep paths first: they carry the scoping flavours
     keys.sort(key=lambda k: (-len(k[1]), not k[1][-1].startswith("long_")))
-    keys = [k for k in keys if k[1][-1].startswith("long_")] + [k for k in keys if not k[1][-1].startswith("long_")]
+    first = lambda k: k[1][-1].startswith("long_") or k[1][-1].startswith("zz_")  # noqa: E731
+    keys = [k for k in keys if first(k)] + [k for k in keys if not first(k)]
     for ns, path in keys[:max_keys]:
         per_loc = {}
         allv, allc, allcnt = {}, set(), {}
@@ -53,67 +68,76 @@ def add_observations(crate, project, ptable, rng, max_keys=40):
         except model.ModelError:
             continue
         union_nodes = [r for (_, rn) in per_loc.values() for r in rn]
-        assignments, _, _, _ = workload.choose_args(union_nodes, rng, 1)
-        args, cvals = assignments[0]
+        assignments, _, _, counts = workload.choose_args(union_nodes, rng, 6)
         kp = e2e.key_path_tokens(ns, path)
         prefix = ([ns] if ns is not None else []) + list(path[:-1])
         lk = lit_kind(per_loc)
-        loc = locales[rng.randrange(len(locales))]
-        eff, rn = per_loc[loc]
-        if c01.plural_ambiguous(rn, cvals, loc, eff, ptable):
-            continue
-        lv = "Locale::" + e2e.ident(loc)
-        sa = e2e.args_tokens(args, cvals, allc, "string")
-        va = e2e.args_tokens(args, cvals, allc, "view")
-        S = (", " + sa) if sa else ""
-        V = (", " + va) if va else ""
-        oid = crate.next_id
-        flavours = ["td_string", "td_display", "td"] + CTX_FLAVOURS
-        b = []
-        b.append('    { let v = td_string!(%s, %s%s); emit(%d, "td_string", &v.to_string()); }' % (lv, kp, S, oid))
-        b.append('    { let v = td_display!(%s, %s%s); emit(%d, "td_display", &v.to_string()); }' % (lv, kp, S, oid))
-        b.append('    { let v = td!(%s, %s%s); emit(%d, "td", &html(v)); }' % (lv, kp, V, oid))
-        b.append('    with_ctx(%s, |i18n| {' % lv)
-        b.append('        emit(%d, "ctx_locale", leptos_i18n::Locale::as_str(i18n.get_locale_untracked()));' % oid)
-        b.append('        { let v = t!(i18n, %s%s); emit(%d, "t", &html(v)); }' % (kp, V, oid))
-        b.append('        { let v = tu!(i18n, %s%s); emit(%d, "tu", &html(v)); }' % (kp, V, oid))
-        for m in ("t_string", "tu_string", "t_display", "tu_display"):
-            b.append('        { let v = %s!(i18n, %s%s); emit(%d, "%s", &v.to_string()); }' % (m, kp, S, oid, m))
-        # scoping prefixes
-        idents = [e2e.ident(p) for p in prefix]
-        last = e2e.ident(path[-1])
-        for k in range(1, len(idents) + 1):
-            pre = ".".join(idents[:k])
-            rest = ".".join(idents[k:] + [last])
-            f1, f2, f3 = "scope_i18n:%d" % k, "use_i18n_scoped:%d" % k, "scope_i18n_view:%d" % k
-            b.append('        { let s = scope_i18n!(i18n, %s); let v = t_string!(s, %s%s); emit(%d, "%s", &v.to_string()); '
-                     'emit(%d, "%s:locale", leptos_i18n::Locale::as_str(s.get_locale_untracked())); }' % (pre, rest, S, oid, f1, oid, f1))
-            b.append('        { let s = use_i18n_scoped!(%s); let v = t_display!(s, %s%s); emit(%d, "%s", &v.to_string()); }' % (pre, rest, S, oid, f2))
-            b.append('        { let s = scope_i18n!(i18n, %s); let v = t!(s, %s%s); emit(%d, "%s", &html(v)); }' % (pre, rest, V, oid, f3))
-            flavours += [f1, f2, f3]
-        if len(idents) >= 2:
-            chain = "let s = scope_i18n!(i18n, %s); " % idents[0] + "".join("let s = scope_i18n!(s, %s); " % i for i in idents[1:])
-            b.append('        { %slet v = tu_string!(s, %s%s); emit(%d, "scope_i18n:chained", &v.to_string()); }' % (chain, last, S, oid))
-            flavours.append("scope_i18n:chained")
-        b.append('    });')
-        for k in range(1, len(idents) + 1):
-            pre = ".".join(idents[:k])
-            rest = ".".join(idents[k:] + [last])
-            f = "scope_locale:%d" % k
-            b.append('    { let s = scope_locale!(%s, %s); let v = td_string!(s, %s%s); emit(%d, "%s", &v.to_string()); '
-                     'emit(%d, "%s:locale", leptos_i18n::Locale::as_str(s)); }' % (lv, pre, rest, S, oid, f, oid, f))
-            flavours.append(f)
-        if len(idents) >= 2:
-            chain = "let s = scope_locale!(%s, %s); " % (lv, idents[0]) + "".join("let s = scope_locale!(s, %s); " % i for i in idents[1:])
-            b.append('    { %slet v = td!(s, %s%s); emit(%d, "scope_locale:chained", &html(v)); }' % (chain, last, V, oid))
-            flavours.append("scope_locale:chained")
-        if lk is not None:
-            chain = ".".join("%s()" % i for i in idents + [last])
-            b.append('    { let v = %s.get_keys_const().%s.inner(); emit(%d, "const", &v.to_string()); }' % (lv, chain, oid))
-            flavours.append("const")
-        expected = model.render_rnodes(rn, args, eff, ptable, cvals)
-        crate.add("\n".join(b), {"ns": ns, "locale": loc, "effective": eff, "path": list(path), "args": args, "counts": cvals,
-                                 "expected": expected, "rnodes": rn, "flavours": flavours, "depth": len(idents)})
+        # count-bearing keys: the first assignment gets every flavour, the others (other counts, other locales) the five
+        # basic ones, so that each written branch / plural form is compared across flavours, not one per key
+        for ai, (args, cvals) in enumerate(assignments):
+            full = ai == 0
+            loc = locales[rng.randrange(len(locales))]
+            eff, rn = per_loc[loc]
+            if c01.plural_ambiguous(rn, cvals, loc, eff, ptable):
+                continue
+            lv = "Locale::" + e2e.ident(loc)
+            sa = e2e.args_tokens(args, cvals, allc, "string")
+            va = e2e.args_tokens(args, cvals, allc, "view")
+            S = (", " + sa) if sa else ""
+            V = (", " + va) if va else ""
+            oid = crate.next_id
+            b = []
+            b.append('    { let v = td_string!(%s, %s%s); emit(%d, "td_string", &v.to_string()); }' % (lv, kp, S, oid))
+            b.append('    { let v = td_display!(%s, %s%s); emit(%d, "td_display", &v.to_string()); }' % (lv, kp, S, oid))
+            b.append('    { let v = td!(%s, %s%s); emit(%d, "td", &html(v)); }' % (lv, kp, V, oid))
+            b.append('    with_ctx(%s, |i18n| {' % lv)
+            if not full:
+                flavours = ["td_string", "td_display", "td", "t", "t_string"]
+                b.append('        { let v = t!(i18n, %s%s); emit(%d, "t", &html(v)); }' % (kp, V, oid))
+                b.append('        { let v = t_string!(i18n, %s%s); emit(%d, "t_string", &v.to_string()); }' % (kp, S, oid))
+                b.append('    });')
+            else:
+                flavours = ["td_string", "td_display", "td"] + CTX_FLAVOURS
+                b.append('        emit(%d, "ctx_locale", leptos_i18n::Locale::as_str(i18n.get_locale_untracked()));' % oid)
+                b.append('        { let v = t!(i18n, %s%s); emit(%d, "t", &html(v)); }' % (kp, V, oid))
+                b.append('        { let v = tu!(i18n, %s%s); emit(%d, "tu", &html(v)); }' % (kp, V, oid))
+                for m in ("t_string", "tu_string", "t_display", "tu_display"):
+                    b.append('        { let v = %s!(i18n, %s%s); emit(%d, "%s", &v.to_string()); }' % (m, kp, S, oid, m))
+                # scoping prefixes
+                idents = [e2e.ident(p) for p in prefix]
+                last = e2e.ident(path[-1])
+                for k in range(1, len(idents) + 1):
+                    pre = ".".join(idents[:k])
+                    rest = ".".join(idents[k:] + [last])
+                    f1, f2, f3 = "scope_i18n:%d" % k, "use_i18n_scoped:%d" % k, "scope_i18n_view:%d" % k
+                    b.append('        { let s = scope_i18n!(i18n, %s); let v = t_string!(s, %s%s); emit(%d, "%s", &v.to_string()); '
+                             'emit(%d, "%s:locale", leptos_i18n::Locale::as_str(s.get_locale_untracked())); }' % (pre, rest, S, oid, f1, oid, f1))
+                    b.append('        { let s = use_i18n_scoped!(%s); let v = t_display!(s, %s%s); emit(%d, "%s", &v.to_string()); }' % (pre, rest, S, oid, f2))
+                    b.append('        { let s = scope_i18n!(i18n, %s); let v = t!(s, %s%s); emit(%d, "%s", &html(v)); }' % (pre, rest, V, oid, f3))
+                    flavours += [f1, f2, f3]
+                if len(idents) >= 2:
+                    chain = "let s = scope_i18n!(i18n, %s); " % idents[0] + "".join("let s = scope_i18n!(s, %s); " % i for i in idents[1:])
+                    b.append('        { %slet v = tu_string!(s, %s%s); emit(%d, "scope_i18n:chained", &v.to_string()); }' % (chain, last, S, oid))
+                    flavours.append("scope_i18n:chained")
+                b.append('    });')
+                for k in range(1, len(idents) + 1):
+                    pre = ".".join(idents[:k])
+                    rest = ".".join(idents[k:] + [last])
+                    f = "scope_locale:%d" % k
+                    b.append('    { let s = scope_locale!(%s, %s); let v = td_string!(s, %s%s); emit(%d, "%s", &v.to_string()); '
+                             'emit(%d, "%s:locale", leptos_i18n::Locale::as_str(s)); }' % (lv, pre, rest, S, oid, f, oid, f))
+                    flavours.append(f)
+                if len(idents) >= 2:
+                    chain = "let s = scope_locale!(%s, %s); " % (lv, idents[0]) + "".join("let s = scope_locale!(s, %s); " % i for i in idents[1:])
+                    b.append('    { %slet v = td!(s, %s%s); emit(%d, "scope_locale:chained", &html(v)); }' % (chain, last, V, oid))
+                    flavours.append("scope_locale:chained")
+                if lk is not None:
+                    chain = ".".join("%s()" % i for i in idents + [last])
+                    b.append('    { let v = %s.get_keys_const().%s.inner(); emit(%d, "const", &v.to_string()); }' % (lv, chain, oid))
+                    flavours.append("const")
+            expected = model.render_rnodes(rn, args, eff, ptable, cvals)
+            crate.add("\n".join(b), {"ns": ns, "locale": loc, "effective": eff, "path": list(path), "args": args, "counts": cvals,
+                                     "expected": expected, "rnodes": rn, "flavours": flavours, "depth": len(prefix), "sweep": ai})
 
 
 VIEW = ("td", "t", "tu")
@@ -172,6 +196,8 @@ def run(tier, seed, replay=None):
     n_crates = 4 if tier == "quick" else 48
     cfg = c01.e2e_cfg(p_sub=0.35, max_depth=3, n_keys=(14, 22), namespaces=0.4, p_fk=0.15, p_lit_other=0.15)
     projs = [projects.gen_valid_project(rng, cfg) for _ in range(n_crates)]
+    for p in projs:
+        add_plural_keys(p, rng)
     ptable = workload.plural_table_for(projs)
     crates = []
     for i, p in enumerate(projs):
